@@ -343,7 +343,19 @@ func (s *PersistentHybridIndex) Train(vectors [][]float32) error {
 		nodes[i] = *NewVectorNodeWithID(uint32(i), vec)
 	}
 
-	return s.config.VectorIndexTemplate.Train(nodes)
+	if err := s.config.VectorIndexTemplate.Train(nodes); err != nil {
+		return err
+	}
+
+	// Memtables own copies of the template, so the ones that already exist
+	// have to learn the same (deterministic) training as well.
+	for _, mt := range s.memtableQueue.list() {
+		if err := mt.index.Train(vectors); err != nil {
+			return fmt.Errorf("failed to train memtable index: %w", err)
+		}
+	}
+
+	return nil
 }
 
 // VectorIndex returns the underlying vector index template.
